@@ -482,8 +482,8 @@ fn parse_atom_latin1(input: &[u8]) -> NomResult<'_, OwnedTerm> {
         return Err(nom::Err::Failure(NomError::new(input, ErrorKind::TooLarge)));
     }
     let (input, bytes) = take(len as usize)(input)?;
-    let name = str::from_utf8(bytes)
-        .map_err(|_| nom::Err::Failure(NomError::new(input, ErrorKind::Char)))?;
+    // ATOM_EXT / SMALL_ATOM_EXT carry Latin-1: every byte is one code point
+    let name: String = bytes.iter().map(|&b| b as char).collect();
     Ok((input, OwnedTerm::Atom(Atom::new(name))))
 }
 
@@ -515,8 +515,8 @@ fn parse_small_atom_latin1(input: &[u8]) -> NomResult<'_, OwnedTerm> {
         return Err(nom::Err::Failure(NomError::new(input, ErrorKind::TooLarge)));
     }
     let (input, bytes) = take(len as usize)(input)?;
-    let name = str::from_utf8(bytes)
-        .map_err(|_| nom::Err::Failure(NomError::new(input, ErrorKind::Char)))?;
+    // ATOM_EXT / SMALL_ATOM_EXT carry Latin-1: every byte is one code point
+    let name: String = bytes.iter().map(|&b| b as char).collect();
     Ok((input, OwnedTerm::Atom(Atom::new(name))))
 }
 
@@ -967,9 +967,16 @@ fn parse_atom_latin1_borrowed(input: &[u8]) -> NomResult<'_, BorrowedTerm<'_>> {
         return Err(nom::Err::Failure(NomError::new(input, ErrorKind::TooLarge)));
     }
     let (input, bytes) = take(len as usize)(input)?;
-    let name = str::from_utf8(bytes)
-        .map_err(|_| nom::Err::Failure(NomError::new(input, ErrorKind::Char)))?;
-    Ok((input, BorrowedTerm::Atom(Cow::Borrowed(name))))
+    // ATOM_EXT carries Latin-1: ASCII can be borrowed as is, anything else is one code point per byte
+    let name: Cow<'_, str> = if bytes.is_ascii() {
+        Cow::Borrowed(
+            str::from_utf8(bytes)
+                .map_err(|_| nom::Err::Failure(NomError::new(input, ErrorKind::Char)))?,
+        )
+    } else {
+        Cow::Owned(bytes.iter().map(|&b| b as char).collect())
+    };
+    Ok((input, BorrowedTerm::Atom(name)))
 }
 
 fn parse_atom_utf8_borrowed(input: &[u8]) -> NomResult<'_, BorrowedTerm<'_>> {
